@@ -263,7 +263,7 @@ def run(ctx):
         "traces_validated_against_impl": acc.n,
         "rule": "states = all container trees with <= %d nodes over leaf keys {a,b}, block keys {g,a}, "
                 "group/object at every block (%d modules incl. %d special ones and plain-dict inputs); "
-                "transitions = encode, encode again, for %d encoder configurations; oracle = deep "
+                "transitions = encode, encode again, for %d encoder configurations (incl. the convenience function pvl.dumps with and without options; hermetic cases re-dump after each of nine other pvl.dumps calls and after every other use of the same encoder); oracle = deep "
                 "snapshot (classes, identities, item lists, dict storage) before/after; non-trivial = "
                 "both calls completed and all three snapshots were compared"
                 % (n_max, len(mods), len(specials()), len(CONFIGS)),
